@@ -44,3 +44,13 @@ let register (name : string) (f : string list -> unit) = handlers := (name, f) :
 let print_z1 (x : z) = print_endline (string_of_z x)
 let print_bytes (b : n list) = print_endline (hex_of_bytes b)
 let zb (b : bool) : string = if b then "1" else "0"
+
+(* split a token list on "|" *)
+let split_bar (toks : string list) : string list list =
+  let rec go acc cur = function
+    | [] -> List.rev (List.rev cur :: acc)
+    | "|" :: r -> go (List.rev cur :: acc) [] r
+    | x :: r -> go acc (x :: cur) r in
+  go [] [] toks
+
+
